@@ -437,22 +437,23 @@ func (w *World) afterStep(u *Upload, ev sim.Event) {
 	case (u.Variant == "short" || u.Variant == "long" || u.Variant == "wronghash") && code == codes.InvalidArgument:
 		ok = true
 	}
-	// Environment causes.
+	// Environment causes. Only the shutdown case has a code fixed by a
+	// property (C03: UNAVAILABLE); for the others any error is accepted.
 	if !ok {
 		switch {
-		case u.TooBig && code == codes.InvalidArgument:
+		case u.TooBig:
 			ok = true
 		case (w.Closed || u.ClosedAtStart) && code == codes.Unavailable:
 			ok = true
-		case u.AllocFailed && code == codes.Unavailable:
+		case u.AllocFailed:
 			ok = true
-		case u.Block != nil && (u.Block.Popped || u.Block.Quarantined) && code == codes.Internal:
+		case u.Block != nil && (u.Block.Popped || u.Block.Quarantined):
 			ok = true
 		case w.deviceFaultsArmed():
 			ok = true
-		case w.Cfg.Hierarchical && code == codes.Internal && u.Block == nil:
+		case w.Cfg.Hierarchical && u.Block == nil && u.Variant == "good":
 			// Documented outcome of hierarchicalCASBlobAccess.Put when the
-			// canonical entry is evicted/displaced during the upload.
+			// existing copy is evicted/displaced while the buffer is read.
 			ok = true
 		}
 	}
@@ -533,15 +534,16 @@ func (w *World) classifyReadErr(what string, o *Obj, instance string, err error,
 	}
 	env := false
 	switch {
-	case w.St.Alloc.NewBlockFailures != failsBefore && code == codes.Unavailable:
-		env = true
-	case w.Closed && code == codes.Unavailable:
-		env = true
+	case w.St.Alloc.NewBlockFailures != failsBefore:
+		env = true // the refresh could not allocate a block
+	case w.Closed:
+		env = true // the refresh was refused: store closed for writing
 	case w.deviceFaultsArmed():
 		env = true
-	case w.Corrupt && code == codes.Internal:
+	case w.Corrupt:
 		env = true
 	}
+	_ = code
 	if !env {
 		w.fatalf("%s of object %d (inst %q) failed with %v on a medium that is not corrupted (only NOT_FOUND is allowed)", what, o.ID, instance, err)
 	}
@@ -696,8 +698,8 @@ func (w *World) FindMissing(items []ObjInst) ([]bool, error) {
 	missing, err := w.St.BA.FindMissing(w.Ctx, sb.Build())
 	if err != nil {
 		code := status.Code(err)
-		env := (w.St.Alloc.NewBlockFailures != failsBefore && code == codes.Unavailable) ||
-			(w.Closed && code == codes.Unavailable) || w.deviceFaultsArmed() || (w.Corrupt && code == codes.Internal)
+		_ = code
+		env := w.St.Alloc.NewBlockFailures != failsBefore || w.Closed || w.deviceFaultsArmed() || w.Corrupt
 		w.logf("findmissing %d items -> error %v", len(items), err)
 		if !env {
 			w.fatalf("FindMissing failed with %v on a healthy medium", err)
